@@ -111,6 +111,8 @@ pub fn build_pass_0(
 
 /// How deep macro calls may be nested
 const MAX_MACRO_DEPTH: usize = 64;
+/// How long a line of a macro body may get by the substitution of arguments
+const MAX_EXPANDED_LINE: usize = 65536;
 /// How many macro calls one build may expand
 const MAX_MACRO_CALLS: usize = 1_000_000;
 
@@ -195,6 +197,14 @@ fn macro_expand(
                 let string_rep = ops.iter().map(|x| x.to_string());
                 for (num, replacer) in string_rep.enumerate() {
                     raw_line = raw_line.replace(&format!("@{}", num), replacer.as_str());
+                }
+                if raw_line.len() > MAX_EXPANDED_LINE {
+                    bail!(
+                        "line of macro {} grows beyond {} characters when expanded on {}",
+                        macro_name,
+                        MAX_EXPANDED_LINE,
+                        line
+                    );
                 }
                 processed.push((cp.clone(), raw_line));
             }
